@@ -93,11 +93,17 @@ def circular_pol_vector(handedness='left', shape=None):
     """
 
     pol_vector = _empty_pol_vector(shape=shape)
-    pol_vector[..., 0] = 1/np.sqrt(2)
+    if shape is None:
+        x, y = 0, 1
+    else:
+        # the (2, 1) column vector lives in the last two axes
+        x, y = (..., 0, 0), (..., 1, 0)
+
+    pol_vector[x] = 1/np.sqrt(2)
     if handedness == 'left':
-        pol_vector[..., 1] = 1j/np.sqrt(2)
+        pol_vector[y] = 1j/np.sqrt(2)
     elif handedness == 'right':
-        pol_vector[..., 1] = -1j/np.sqrt(2)
+        pol_vector[y] = -1j/np.sqrt(2)
     else:
         raise ValueError(f"unknown handedness {handedness}, use 'left' or 'right''")  # NOQA
 
